@@ -84,7 +84,13 @@ def scenario_for(seed, index, tier):
     play = list(hist)
     if user_packets:
         play.append(['expect', answers + user_packets])
-    play.append(['disconnect', '{"text":"end of history"}'])
+    reason = rng.choice(['{"text":"end of history"}',
+                         '{"text":"end of history"}',
+                         '{"translate":"disconnect.closed"}',
+                         '"Server closed"',
+                         '["Server ",{"text":"closed","color":"red"}]',
+                         '{"text":"","extra":[{"text":"x"}]}'])
+    play.append(['disconnect', reason])
     if kick:
         play.append(['close'])
     v = rng.random()
@@ -100,7 +106,7 @@ def scenario_for(seed, index, tier):
     return {
         'slow_listener': slow,
         'proto': proto, 'compress': compress, 'history': hist,
-        'user_packets': user_packets, 'kick': kick,
+        'user_packets': user_packets, 'kick': kick, 'reason': reason,
         'server': {'conns': [{'login': login, 'play': play}]},
         'net': net,
         'sched': {'granularity': 'io' if rng.random() < 0.7 else 'line',
@@ -317,7 +323,8 @@ def shrink_scenario(sc):
         play = list(c['history'])
         if c['user_packets']:
             play.append(['expect', answers + c['user_packets']])
-        play.append(['disconnect', '{"text":"end of history"}'])
+        play.append(['disconnect', c.get('reason',
+                                         '{"text":"end of history"}')])
         if c.get('kick'):
             play.append(['close'])
         c['server']['conns'][0]['play'] = play
